@@ -973,6 +973,11 @@ def run_map(case, drv):
     stale = any(not f for f in fresh)
     if stale:
         tags.append("stale-stacker")
+    if mo["wf"] and all(mo.get("latest", [False])):
+        tags.append("latest-only")        # inside write_through_latest (no hypothesis on the run)
+        if stale:                         # theorem latest_fresh says this cannot happen
+            agree = False
+            detail["latest_but_stale"] = True
     dom = mo["wf"] and not stale
     kf = None
     if not ok and first_bad is not None and first_bad < len(fresh) and not fresh[first_bad]:
